@@ -509,11 +509,16 @@ def main(argv=None):
                          % (prop, known[sig], f["count"]))
             continue
         violations += 1
-        rdir = os.path.join(VERIF_DIR, "replays", prop)
+        # runs against a scratch copy of the repository (tools/seeded.py) keep their replay files
+        # next to their evidence, away from the ones that describe /repo
+        rbase = os.path.dirname(os.environ["VERIF_EVIDENCE_DIR"].rstrip("/")) if os.environ.get("VERIF_EVIDENCE_DIR") else VERIF_DIR
+        rdir = os.path.join(rbase, "replays", prop)
         os.makedirs(rdir, exist_ok=True)
         name = hashlib.blake2b(sig.encode(), digest_size=6).hexdigest()
         rpath = os.path.join("replays", prop, name + ".json")
-        with open(os.path.join(VERIF_DIR, rpath), "w") as fh:
+        if rbase != VERIF_DIR:
+            rpath = os.path.join(rbase, rpath)
+        with open(os.path.join(rbase, "replays", prop, name + ".json"), "w") as fh:
             json.dump(
                 {
                     "property": prop,
